@@ -587,7 +587,25 @@ def run_c10(tier):
     recs = _cut_records(check, tier, 0.6, "c10")
     recs += tlc_molecules(check, tier, 0.7, "c10mc")
     recs += _forced_sharing(check, tier)
-    verdicts = validate_with(check, recs)
+    # shared atoms / shared beads at SEVERAL levels of one string (three and more resolutions, squash at each of them)
+    from .. import molgen
+    rng = common.rng("c10lay")
+    mols = [(smi, molgen.read_reference(smi)) for smi in molgen.CATALOGUE]
+    mols = [(smi, g) for smi, g in mols if g.number_of_nodes() >= 4]
+    want, tries, nlay = (60 if tier == "quick" else 1200), 0, 0
+    while nlay < want and tries < 20 * want:
+        tries += 1
+        smi, g = rng.choice(mols)
+        lay = molgen.layered_config(g, rng, rng.randint(1, 2), share_top=0.6, share_atom=0.6)
+        if lay is None or lay["nlevels"] == 0:
+            continue
+        rr, text = layered_records(g, lay, smi)
+        for r in rr:
+            r.setdefault("nshared", lay["atomistic"].get("nshared", 0))
+        recs += rr
+        nlay += 1
+    check.extra["layered_strings_with_sharing"] = nlay
+    verdicts = validate_with(check, recs, extra=("noblocks", "otherfrags"))
     judge(check, "C10", recs, verdicts, nontrivial=lambda r, v: r.get("nshared", 0) > 0)
     check.extra["shared_configs"] = sum(1 for r in recs if r.get("nshared", 0) > 0)
     return check.finish()
@@ -674,6 +692,11 @@ def run_c03(tier):
 
 
 def run_c09(tier):
+    # the property holds whatever the process did before: the hydrogen helpers are first used the way other callers use
+    # them (mass of a plain molecule graph, a graph without fragment attributes) - the worker processes inherit that state
+    from .. import histworker
+    with project.quiet():
+        histworker.other_use("mass", None)
     check, recs, verdicts = _config_check("C09", tier, CFG_RULE.format(n=3 if tier == "quick" else 4) +
                                           "; only all-atom results are judged; non-trivial = result has a hydrogen",
                                           only=lambda r, v: v.get("checked") and r["allAtom"],
@@ -695,6 +718,37 @@ def run_c11(tier):
                                           only=lambda r, v: v.get("hasvirtual") or v.get("haszero") or not v.get("checked"),
                                           nontrivial=lambda r, v: True)
     check.extra["twins_compared"] = sum(1 for r in recs if "twin" in r)
+    # virtual nodes in strings with SEVERAL levels: a fragment-less node in front of / behind the top-level graph
+    # (zero-order chain bond); every level must resolve as without it and the last level must give the molecule
+    from .. import molgen
+    rng = common.rng("c11lay")
+    mols = [(smi, molgen.read_reference(smi)) for smi in molgen.CATALOGUE]
+    mols = [(smi, g) for smi, g in mols if g.number_of_nodes() >= 4]
+    want, tries, lrecs = (40 if tier == "quick" else 600), 0, []
+    nlay = 0
+    while nlay < want and tries < 20 * want:
+        tries += 1
+        smi, g = rng.choice(mols)
+        lay = molgen.layered_config(g, rng, rng.randint(1, 2))
+        if lay is None or lay["nlevels"] == 0:
+            continue
+        v = render.tok("N", "V")
+        dot = render.tok("B", ".")
+        lay = dict(lay)
+        lay["top"] = ([v, dot] + lay["top"]) if rng.random() < 0.5 else (lay["top"] + [dot, v])
+        try:
+            if render.render_graph_tokens(render.tokenize_graph(render.render_graph_tokens(lay["top"]))) != \
+                    render.render_graph_tokens(lay["top"]):
+                continue
+        except render.Untokenizable:
+            continue
+        rr, text = layered_records(g, lay, smi)
+        lrecs += rr
+        nlay += 1
+    lverd = validate_with(check, lrecs, extra=("noblocks", "otherfrags"))
+    CLAUSES["C11L"] = ["X_Accepted", "C01_Original", "C11_NoBondOnZero", "C11_VirtualEmpty", "C02_Graph", "C03_Across", "C03_CountLE"]
+    judge(check, "C11L", lrecs, lverd, nontrivial=lambda r, v: True)
+    check.extra["layered_strings_with_virtual_node"] = nlay
     return check.finish()
 
 
